@@ -82,7 +82,7 @@ void World::build_common()
 		S.faults.p_trunc = f.getd("p_trunc"); S.faults.p_flip = f.getd("p_flip");
 		S.faults.max_delay = (uint64_t)f.geti("max_delay_us");
 		S.faults.p_redeliv = f.getd("p_redeliv"); S.faults.p_rd_newid = f.getd("p_rd_newid"); S.faults.p_rd_recase = f.getd("p_rd_recase");
-		S.faults.p_rd_altsrc = f.getd("p_rd_altsrc"); S.faults.rd_max_delay = (uint64_t)f.geti("rd_max_delay_us");
+		S.faults.p_rd_altsrc = f.getd("p_rd_altsrc"); S.faults.p_rd_retype = f.getd("p_rd_retype"); S.faults.rd_max_delay = (uint64_t)f.geti("rd_max_delay_us");
 	}
 	// explicit fates
 	const J &fl = plan["fates"];
@@ -96,7 +96,7 @@ void World::build_common()
 			if (e.has("replace_hex")) { ft.has_replace = true; ft.replace = unhex(e.gets("replace_hex")); }
 			if (e.has("synth")) { const J &y = e["synth"]; ft.synth_size = (int)y.geti("size"); ft.synth_seq = (int)y.geti("seq"); ft.synth_frag = (int)y.geti("frag"); ft.synth_last = (int)y.geti("last"); ft.synth_key = (uint64_t)y.geti("key"); std::string en = y.gets("enc", "T"); ft.synth_enc = en.empty() ? 'T' : en[0]; }
 			if (e.has("redeliv")) for (auto &x : e["redeliv"].a) {
-				Redeliv rd; rd.delay = (uint64_t)x.geti("delay_us"); rd.idxor = (uint16_t)x.geti("idxor"); rd.recase = (uint64_t)x.geti("recase"); rd.altsrc = x.getb("altsrc");
+				Redeliv rd; rd.delay = (uint64_t)x.geti("delay_us"); rd.idxor = (uint16_t)x.geti("idxor"); rd.recase = (uint64_t)x.geti("recase"); rd.altsrc = x.getb("altsrc"); rd.retype = (uint16_t)x.geti("retype");
 				ft.redeliv.push_back(rd);
 			}
 			std::string key = (e.has("from") ? e.gets("from") : std::string("#") + std::to_string(e.geti("from_id", -1))) + ">" + (e.has("to") ? e.gets("to") : std::string("#") + std::to_string(e.geti("to_id", -1))) + "#" + std::to_string(e.geti("n"));
@@ -314,7 +314,7 @@ J World::fate_json(const std::pair<int, uint64_t> &key, const Fate &f)
 	if (f.synth_size) { J y = J::obj(); y.set("size", f.synth_size); y.set("seq", f.synth_seq); y.set("frag", f.synth_frag); y.set("last", f.synth_last); y.set("key", (long long)f.synth_key); y.set("enc", std::string(1, f.synth_enc)); o.set("synth", y); }
 	if (!f.redeliv.empty()) {
 		J a = J::arr();
-		for (auto &r : f.redeliv) { J x = J::obj(); x.set("delay_us", (long long)r.delay); if (r.idxor) x.set("idxor", (int)r.idxor); if (r.recase) x.set("recase", (long long)r.recase); if (r.altsrc) x.set("altsrc", true); a.push(x); }
+		for (auto &r : f.redeliv) { J x = J::obj(); x.set("delay_us", (long long)r.delay); if (r.idxor) x.set("idxor", (int)r.idxor); if (r.recase) x.set("recase", (long long)r.recase); if (r.altsrc) x.set("altsrc", true); if (r.retype) x.set("retype", (int)r.retype); a.push(x); }
 		o.set("redeliv", a);
 	}
 	return o;
